@@ -91,6 +91,23 @@ def run(chk):
     chk.call(r6_stream, chk, prog.func(f"{WR}:dump"))
     chk.call(r3_class_wrappers, chk, ens)
     chk.call(r7_cdxml_siblings, chk)
+    chk.call(r1_lists_where_promised, chk)
+
+
+def r1_lists_where_promised(chk):
+    """`load_all` / `loads_all` promise a list: what an arm returns is a call of the class's `*_all_*` method (which returns a list), a list
+    display / comprehension, or `list(...)` - not a generator expression, `map`, `filter`, `zip` (no len, no indexing, exhausted after one pass)"""
+    prog = chk.prog
+    for E in ("load_all", "loads_all"):
+        f = prog.func(f"{RD}:{E}")
+        inner = _dispatch_quiet(chk, f)
+        for c in inner.cases:
+            for r in [x for s_ in c.body for x in walk_no_nested(s_) if isinstance(x, ast.Return) and x.value is not None]:
+                v = r.value
+                lazy = isinstance(v, ast.GeneratorExp) or (isinstance(v, ast.Call) and call_name(v) in ("map", "filter", "zip", "iter", "reversed", "itertools.chain", "chain"))
+                lits = "/".join(str(x) for x in _case_lits(c)) or "?"
+                chk.decide(not lazy, "C09.R1", f"{f.key}:{lits}:returns-a-list", f.where(r), "a list is returned",
+                           f"ml.{E}(fmt={lits!r}) returns `{short(v, 50)}` - an iterator, not the list that is promised (no len(), no indexing, empty on the second pass)")
 
 
 def r7_cdxml_siblings(chk):
@@ -432,6 +449,13 @@ def dumper(chk, f, E, mol, ens):
         chk.decide(ok, "C09.R1", key, f.where(c), f"obj.{c.func.attr}(" + ("stream" if E == "dump" else "") + ")",
                    f"ml.{E}(fmt={F!r}) calls obj.{c.func.attr}({', '.join(norm(a) for a in c.args)}) - expected obj.{want}"
                    + ("(stream, ...)" if E == "dump" else " returned"))
+        # the writer options the caller gave (**kwargs of the entry point) reach the class method in every arm
+        kwname = f.node.args.kwarg.arg if f.node.args.kwarg is not None else None
+        if kwname is not None:
+            fw = any(k_.arg is None and norm(k_.value) == kwname for k_ in c.keywords)
+            chk.decide(fw, "C09.R3", f"{key}:options-forwarded", f.where(c), f"**{kwname} forwarded",
+                       f"ml.{E}(fmt={F!r}, <options>) calls obj.{c.func.attr} without **{kwname}: options such as write_header=False are honoured by the class method and by the "
+                       "other arms but silently dropped here")
         for ci in (mol, ens):
             r = prog.lookup(ci, want)
             chk.decide(r is not None and r[1].func is not None, "C09.R2", f"{f.key}:{want}:on-{ci.name}", f.where(c),
